@@ -23,6 +23,7 @@ import (
 	"math"
 	"math/rand"
 	"os"
+	"runtime"
 	"sort"
 	"strings"
 	"sync"
@@ -45,10 +46,11 @@ const (
 type result struct{ args, res, feats string }
 
 type job struct {
-	id  int
-	op  string
-	big bool
-	run func() result
+	id     int
+	op     string
+	big    bool
+	run    func() result
+	serial bool // run after the parallel phase, alone, on a single P
 }
 
 var fetchMinSize int32 // c.fetchMinSize of a Conn for topic "t"
@@ -1138,6 +1140,8 @@ func main() {
 	nav := flag.Int("av", 4, "number of avopen and of avstale replays")
 	workers := flag.Int("workers", 16, "parallel scenarios")
 	ncut := flag.Int("cut", 18, "number of trcut scenarios (response cut at byte k, followers must get a fresh connection)")
+	nsplit := flag.Int("split", 40, "number of trsplit scenarios (one call split into several exchanges and merged)")
+	npage := flag.Int("page", 12, "number of trpage scenarios (page pool cross-talk between Fetch responses)")
 	nlate := flag.Int("late", 24, "number of trlate scenarios (deadline mid-exchange, late answer, followers)")
 	flag.Parse()
 
@@ -1179,16 +1183,22 @@ func main() {
 	for i := 0; i < *ncut; i++ {
 		add(genTRCut(r))
 	}
+	for i := 0; i < *nsplit; i++ {
+		add(genTRSplit(r))
+	}
+	for i := 0; i < *npage; i++ {
+		add(genTRPage(r))
+	}
 
 	// big scenarios first, results printed in id order
 	order := make([]int, 0, len(jobs))
 	for i, j := range jobs {
-		if j.big {
+		if j.big && !j.serial {
 			order = append(order, i)
 		}
 	}
 	for i, j := range jobs {
-		if !j.big {
+		if !j.big && !j.serial {
 			order = append(order, i)
 		}
 	}
@@ -1209,6 +1219,15 @@ func main() {
 	}
 	close(ch)
 	wg.Wait()
+
+	// serial phase: one scenario at a time on a single P (sync.Pool caches are per P)
+	prev := runtime.GOMAXPROCS(1)
+	for i, j := range jobs {
+		if j.serial {
+			results[i] = j.run()
+		}
+	}
+	runtime.GOMAXPROCS(prev)
 
 	out := bufio.NewWriter(os.Stdout)
 	for i, j := range jobs {
